@@ -520,7 +520,109 @@ func runSVG(c *Ctx, r *Reporter) {
 					}
 				}
 			}
-			scan(pushFn, 0, map[*ssa.Function]bool{})
+			// only the decision that guards setAttr counts: the tests in the chain of blocks that lead to the call
+			whole, got = false, map[string]bool{}
+			var setBlock *ssa.BasicBlock
+			for _, b := range pushFn.Blocks {
+				for _, ins := range b.Instrs {
+					if ci, ok := ins.(ssa.CallInstruction); ok && ci.Common().IsInvoke() && ci.Common().Method.Name() == "setAttr" {
+						setBlock = b
+					}
+				}
+			}
+			if setBlock == nil {
+				r.Undecided("Push does not call setAttr")
+			} else {
+				penCopy := func(v ssa.Value) bool { // a local copy of the pen: a := rt.attr
+					a, ok := v.(*ssa.Alloc)
+					if !ok {
+						return false
+					}
+					for _, ref := range *a.Referrers() {
+						if st, ok := ref.(*ssa.Store); ok && st.Addr == ssa.Value(a) && isPen(st.Val) {
+							return true
+						}
+					}
+					return false
+				}
+				var condFields func(v ssa.Value, depth int)
+				condFields = func(v ssa.Value, depth int) {
+					if depth > 6 || v == nil {
+						return
+					}
+					switch x := v.(type) {
+					case *ssa.BinOp:
+						if (x.Op == token.EQL || x.Op == token.NEQ) && (isPen(x.X) || isPen(x.Y)) {
+							whole = true
+						}
+						condFields(x.X, depth+1)
+						condFields(x.Y, depth+1)
+					case *ssa.UnOp:
+						condFields(x.X, depth+1)
+					case *ssa.FieldAddr:
+						if o, f := fieldAddrInfo(x); o != nil && o.Obj() == attrT && (isPen(x.X) || penCopy(x.X)) {
+							got[f] = true
+						}
+						condFields(x.X, depth+1)
+					case *ssa.Field:
+						if o, f := fieldValInfo(x); o != nil && o.Obj() == attrT && isPen(x.X) {
+							got[f] = true
+						}
+					case *ssa.Phi:
+						for _, e := range x.Edges {
+							condFields(e, depth+1)
+						}
+						// the blocks that feed the phi are part of the same condition
+					case *ssa.Call:
+						if sc := x.Call.StaticCallee(); sc != nil && sc.Signature.Recv() != nil {
+							if rn := namedOf(sc.Signature.Recv().Type()); rn != nil && rn.Obj().Name() == "GraphicsPlatform" {
+								for _, b2 := range sc.Blocks {
+									for _, i2 := range b2.Instrs {
+										if vv, ok := i2.(ssa.Value); ok {
+											switch vv.(type) {
+											case *ssa.BinOp, *ssa.FieldAddr, *ssa.Field:
+												condFields(vv, depth+1)
+											}
+										}
+									}
+								}
+							}
+						}
+					}
+				}
+				seenB := map[*ssa.BasicBlock]bool{}
+				var back func(b *ssa.BasicBlock, depth int)
+				back = func(b *ssa.BasicBlock, depth int) {
+					if seenB[b] || depth > 8 {
+						return
+					}
+					seenB[b] = true
+					for _, pb := range b.Preds {
+						if len(pb.Instrs) == 0 {
+							continue
+						}
+						ifi, ok := pb.Instrs[len(pb.Instrs)-1].(*ssa.If)
+						if !ok {
+							continue
+						}
+						condFields(ifi.Cond, 0)
+						// a test block that only computes its condition continues the chain
+						pure := true
+						for _, i2 := range pb.Instrs {
+							if c2, ok := i2.(*ssa.Call); ok && c2.Call.StaticCallee() == nil {
+								pure = false
+							}
+							if _, ok := i2.(*ssa.Store); ok {
+								pure = false
+							}
+						}
+						if pure && len(pb.Preds) == 1 {
+							back(pb, depth+1)
+						}
+					}
+				}
+				back(setBlock, 0)
+			}
 			missing := ""
 			covered := whole
 			if !whole {
